@@ -120,9 +120,24 @@ func subOnly(name string) bool {
 	return !strings.Contains(name[strings.LastIndex(name, "/")+1:], ".")
 }
 
+// noSubFlip is set while a case with a language restriction is drawn: there a path must not change
+// between a submodule entry (no blob, so no language) and a file, which is the open finding
+// "language-flip" (kind langflip)
+var noSubFlip bool
+
 func randomLeaf(rng *rand.Rand, name string) fstate {
 	if subOnly(name) {
 		return fstate{modeSub, fmt.Sprintf("s%d", rng.Intn(3))}
+	}
+	if noSubFlip {
+		switch rng.Intn(12) {
+		case 0, 1:
+			return fstate{modeExec, content(rng, name)}
+		case 2:
+			return fstate{modeLink, namePool[rng.Intn(len(namePool))]}
+		default:
+			return fstate{modeReg, content(rng, name)}
+		}
 	}
 	switch rng.Intn(12) {
 	case 0, 1:
@@ -182,6 +197,9 @@ func mutate(rng *rand.Rand, t tstate) tstate {
 		case r == 7: // file <-> submodule at the same path
 			n := pick()
 			f := t[n]
+			if noSubFlip {
+				continue
+			}
 			if f.mode == modeSub && !subOnly(n) {
 				t[n] = fstate{modeReg, content(rng, n)}
 			} else {
@@ -247,7 +265,26 @@ func randomParents(rng *rand.Rand, n int, linear bool, roots bool) [][]int {
 	return ps
 }
 
-// history draws the trees: a commit starts from the tree of its first parent
+func restrictsLanguages(c cfgT) bool {
+	if c.langs == nil {
+		return false
+	}
+	for _, l := range c.langs {
+		if strings.ToLower(strings.TrimSpace(l)) == "all" {
+			return false
+		}
+	}
+	return true
+}
+
+// draw makes a case of an ordinary stream: the configuration first, then a history that respects it
+func draw(rng *rand.Rand, kind string, parents [][]int, cfg cfgT, ops []opT) caseT {
+	noSubFlip = restrictsLanguages(cfg)
+	defer func() { noSubFlip = false }()
+	return caseT{kind: kind, cfg: cfg, commits: history(rng, parents), ops: ops}
+}
+
+// history draws the trees: a commit starts from the tree of one of its parents
 func history(rng *rand.Rand, parents [][]int) []commitT {
 	states := make([]tstate, len(parents))
 	cs := make([]commitT, len(parents))
@@ -429,10 +466,12 @@ func langflip(c *Config, n int) {
 	}
 }
 
+func rng3(rng *rand.Rand) bool { return true }
+
 func emptymatch(c *Config, n int) {
 	for i := 0; i < n; i++ {
 		k := 2 + c.Rng.Intn(4)
-		commits := history(c.Rng, randomParents(c.Rng, k, true, false))
+		commits := history(c.Rng, randomParents(c.Rng, k, rng3(c.Rng), false))
 		var ops []opT
 		for j := 0; j < k; j++ {
 			ops = append(ops, opT{kind: "consume", b: 0, c: j})
@@ -458,9 +497,9 @@ func malformed(c *Config, n int) {
 	for i := 0; i < n; i++ {
 		k := 2 + rng.Intn(5)
 		parents := randomParents(rng, k, rng.Intn(2) == 0, false)
-		commits := history(rng, parents)
 		cfg := stableCfg(rng)
 		cfg.failMissing = rng.Intn(3) > 0
+		commits := draw(rng, "malformed", parents, cfg, nil).commits
 		for j := range commits {
 			// a .gitmodules that registers some of the submodule entries, none, or garbage
 			var subs []string
@@ -501,17 +540,18 @@ func generate(c *Config) {
 	for i := c.Count(600, 12000); i > 0; i-- {
 		k := 2 + rng.Intn(7)
 		parents := randomParents(rng, k, true, false)
-		emit(c, caseT{kind: "linear", cfg: stableCfg(rng), commits: history(rng, parents), ops: plan(parents)})
+		emit(c, draw(rng, "linear", parents, stableCfg(rng), plan(parents)))
 	}
 	for i := c.Count(900, 20000); i > 0; i-- {
 		k := 3 + rng.Intn(8)
 		parents := randomParents(rng, k, false, true)
-		emit(c, caseT{kind: "dag", cfg: stableCfg(rng), commits: history(rng, parents), ops: plan(parents)})
+		emit(c, draw(rng, "dag", parents, stableCfg(rng), plan(parents)))
 	}
 	for i := c.Count(500, 10000); i > 0; i-- {
 		k := 3 + rng.Intn(6)
 		parents := randomParents(rng, k, false, true)
-		emit(c, caseT{kind: "wrong", cfg: stableCfg(rng), commits: history(rng, parents), ops: perturb(rng, plan(parents), k)})
+		cfg := stableCfg(rng)
+		emit(c, draw(rng, "wrong", parents, cfg, perturb(rng, plan(parents), k)))
 	}
 	malformed(c, c.Count(400, 8000))
 	langflip(c, c.Count(20, 200))
